@@ -19,7 +19,7 @@ RULE = ("fault space = truncation points of the writer: frame sizes 2*nc for nc 
         "distinct = distinct (nc, frames, trailing, claim, fs, reader class)")
 ASSUMPTIONS = ["truncation = a prefix of the byte stream the writer would have produced", "at least one complete frame is present",
                "still-acquiring metadata (no fileTimeSecs / fileSizeBytes yet) is only given to OnlineReader, the class meant for it"]
-REQUIRED = {"strict_diagnostic_policy_opens": 200, "constructions": 400, "resaved_headers": 60, "prefix_values_checked": 400, "half_frame_or_more": 100, "beyond_end_reads": 400, "cbin_short": 2, "deferred_opens": 60, "reopens_after_growth": 100, "metadata_without_size_field": 100, "online_live_sizes": 20, "long_off_by_few": 6, "other_sample_widths": 40, "headers_announcing_zero": 40}
+REQUIRED = {"module_level_reads": 100, "strict_diagnostic_policy_opens": 200, "constructions": 400, "resaved_headers": 60, "prefix_values_checked": 400, "half_frame_or_more": 100, "beyond_end_reads": 400, "cbin_short": 2, "deferred_opens": 60, "reopens_after_growth": 100, "metadata_without_size_field": 100, "online_live_sizes": 20, "long_off_by_few": 6, "other_sample_widths": 40, "headers_announcing_zero": 40}
 CASE_TIMEOUT = 400.0
 NCS = [2, 5, 97, 277, 385]
 FRAMES = [1, 2, 22, 1000]
@@ -184,6 +184,24 @@ def run_case(case):
                         sr.close()
                     if trailing > 0 or claim != "equal":
                         nt += 1
+                # round 22: the same file through the module-level convenience call spikeglx.read(file, first, last) -> (data, sync, metadata): the frames
+                # physically present, and metadata whose duration matches them
+                if fs == 30000.0:
+                    b.with_suffix(".meta").write_text(rec.meta_text)
+                    label = f"spikeglx.read nc={nc} frames={frames} trailing={trailing}B claim={claim}({claim_ns})"
+                    try:
+                        D, sy, md = spikeglx.read(b, first_sample=0, last_sample=frames + 7)
+                        res.count("module_level_reads")
+                        o_ = np.asarray(rec.order, int)[:n]
+                        expd = rec.raw[:frames, o_].astype(np.float64) * s2v[o_][None, :]
+                        res.check(D.shape == (frames, nc) and np.allclose(D[:, :n], expd, rtol=2.0 ** -22, atol=0), "read-function:values",
+                                  f"{label}: data {D.shape} is not the calibrated prefix of the file ({frames} frames)")
+                        res.check(np.shape(sy)[0] == frames, "read-function:sync-rows", f"{label}: {np.shape(sy)[0]} sync rows for {frames} frames")
+                        dur = float(md["fileTimeSecs"])
+                        res.check(int(round(dur * float(md["imSampRate"]))) == frames, "read-function:duration",
+                                  f"{label}: the metadata returned next to {frames} frames report {dur} s = {dur * float(md['imSampRate']):.2f} samples")
+                    except Exception as e:
+                        res.exception("read-function:exception", e, label)
                 # headers that went through the library's own writer (converted / split / re-saved recordings), announcing one or two
                 # frames - durations far below a millisecond - next to a binary of another length (round 19)
                 if trailing in case["trailing"][:3]:
